@@ -1,0 +1,22 @@
+//go:build verif
+
+package compose
+
+import (
+	"reflect"
+
+	"github.com/cloudwego/eino/internal/serialization"
+)
+
+// Re-exports for the external verification harness (property C12): the checkpoint
+// serialiser's entry points as checkPointer.get / set call them.
+
+func VerifC12Marshal(v any) ([]byte, error) { return serialization.Marshal(v) }
+
+func VerifC12Unmarshal(data []byte) (any, error) { return serialization.Unmarshal(data) }
+
+func VerifC12RegisterType(key string, t reflect.Type) error {
+	return serialization.VerifRegisterType(key, t)
+}
+
+func VerifC12Registered(t reflect.Type) (string, bool) { return serialization.VerifRegistered(t) }
